@@ -363,9 +363,10 @@ fn main() {
                         Ok(Err(_)) => "err".to_string(),
                         Err(_) => "panic".to_string(),
                     },
-                    _ => match catch_unwind(AssertUnwindSafe(|| pyxis::parser::parse_str(&format!("{} type T;", text)))) {
-                        Ok(Ok(m)) => match m.definitions.first().map(|d| &d.inner) {
-                            Some(pyxis::grammar::ItemDefinitionInner::Type(td)) if m.definitions.len() == 1 => {
+                    // a leading item keeps a snippet that starts with `#!` from being read as module attributes
+                    _ => match catch_unwind(AssertUnwindSafe(|| pyxis::parser::parse_str(&format!("type Z0; {} type T;", text)))) {
+                        Ok(Ok(m)) => match m.definitions.get(1).map(|d| &d.inner) {
+                            Some(pyxis::grammar::ItemDefinitionInner::Type(td)) if m.definitions.len() == 2 => {
                                 format!("(ok {})", ast::attrs_sexp(&td.attributes))
                             }
                             _ => "err".to_string(),
